@@ -13,7 +13,7 @@ import (
 )
 
 func init() {
-	register("C03", "Decides the structural part of path shape for both engines and all first/last TTL pairs: (R03.1) every store into the engine's slot table writes a ReceiveProbe result that passed validateProbe (or travelled the retryable edge, on which every module driver returns a nil response by C01 R01.7) at the index probe.TTL of that same value; (R03.2) the table length is int(MaxTTL)+1 computed in int; (R03.3) validate() precedes everything and every success return is clipResults(MinTTL, table) while every error return carries a nil slice; (R03.4) each protocol entry point hands ToHops the same parameters it gave the engine and returns ToHops' slice as Hops unmodified; (R03.5) validateProbe accepts only non-nil probes with MinTTL <= TTL <= MaxTTL and ToHops numbers entries MinTTL+i. (R03.6) the search for the index at which clipResults cuts the table is decided for the recognised forms (slices.IndexFunc with the predicate x != nil && x.IsDest; an ascending scan that stops at, or guards after, its first hit; a descending scan that runs to exhaustion) and reported as undecided information otherwise; the remaining arithmetic of clipResults (non-empty, MinTTL offset) is not decided. (R03.4 also) ToHops receives the engine's slice as a whole (result #0, or the Hops field of the ICMP/SACK helper's result), not a re-slice of it.", runC03)
+	register("C03", "Decides the structural part of path shape for both engines and all first/last TTL pairs: (R03.1) every store into the engine's slot table writes a ReceiveProbe result that passed validateProbe (or travelled the retryable edge, on which every module driver returns a nil response by C01 R01.7) at the index probe.TTL of that same value; (R03.2) the table length is int(MaxTTL)+1 computed in int; (R03.3) validate() precedes everything and every success return is clipResults(MinTTL, table) while every error return carries a nil slice; (R03.4) each protocol entry point hands ToHops the same parameters it gave the engine and returns ToHops' slice as Hops unmodified; (R03.5) validateProbe accepts only non-nil probes with MinTTL <= TTL <= MaxTTL and ToHops numbers entries MinTTL+i. (R03.6) the search for the index at which clipResults cuts the table is decided for the recognised forms (slices.IndexFunc with the predicate x != nil && x.IsDest; an ascending scan that stops at, or guards after, its first hit; a descending scan that runs to exhaustion) and reported as undecided information otherwise; the remaining arithmetic of clipResults (non-empty, MinTTL offset) is not decided. (R03.4 also) ToHops receives the engine's slice as a whole (result #0, or the Hops field of the ICMP/SACK helper's result), not a re-slice of it. R03.3 accepts the success return through single-result helpers of the engine's scope (a table type's method that returns clipResults of its own slots). R03.6 also decides the counter-scan form (the cut index is the scan counter; the loop is left on `x != nil && x.IsDest` of the element at the counter's current value) and, for the IndexFunc form, that the cut is guarded by the 'found' test only.", runC03)
 	darwinRules["C03"] = runC03
 }
 
